@@ -45,12 +45,16 @@ Run(src, p, st, buf, fuel) ==
   ELSE IF st = "BLOCK_SE" /\ ch = DASH THEN More("BLOCK_EE", B1)
   ELSE IF st = "BLOCK_SE" /\ ch = RPAR THEN More("BLOCK_SE", B1)
   ELSE IF st = "BLOCK_EE" /\ ch = DASH THEN Stop("BLOCK_FINAL", B1)
+  \* ")-)": the second parenthesis may still start the end (historically the automaton fell back to BLOCK: switch)
+  ELSE IF st = "BLOCK_EE" /\ ch = RPAR /\ "BlockEndLosesParen" \notin LexDev THEN More("BLOCK_SE", B1)
   ELSE IF st \in {"BLOCK_EE", "BLOCK_SE"} THEN More("BLOCK", B1)
   ELSE IF ch = BSL /\ st = "STR_D" THEN More("ESC_D", buf)
   ELSE IF st = "STR_D" THEN (IF ch = Q2 THEN Stop("STR_END", buf) ELSE More(st, B1))
   ELSE IF ch = BSL /\ st = "STR_S" THEN More("ESC_S", buf)
   ELSE IF st = "STR_S" THEN (IF ch = Q1 THEN Stop("STR_END", buf) ELSE More(st, B1))
   ELSE IF ch = LPAR /\ st = "COMMENTSTART" THEN More("BLOCK", B1)
+  \* an empty line comment ends at its own line end (historically it swallowed the newline and the next line: switch)
+  ELSE IF st = "COMMENTSTART" /\ ch = 10 /\ "EmptyCommentSwallowsLine" \notin LexDev THEN Unread("COMMENT", buf)
   ELSE IF st = "COMMENTSTART" THEN More("COMMENT", B1)
   ELSE IF ch = LPAR /\ st = "START" THEN Stop("OPENPAREN", B1)
   ELSE IF ch = RPAR /\ st = "START" THEN Stop("CLOSEPAREN", B1)
